@@ -438,14 +438,20 @@ class Check:
         self.analysed = {}
         self.rules = []
         self.notes = []
+        self.prefix = ""          # key prefix of the current pass (thorough tier: second configuration)
+        self.defer = False
+        self.passes = []
+        self._finish_args = None
         known = load_known()
         self.known = {k["key"]: k for k in known.get("findings", []) if k["property"] == pid}
 
     def rule(self, rid, text):
-        self.rules.append({"id": rid, "rule": text})
+        if not any(r["id"] == rid for r in self.rules):
+            self.rules.append({"id": rid, "rule": text})
 
     def ok(self, rule, key, sample=None):
         """an obligation that was examined and holds"""
+        key = self.prefix + str(key)
         self.obligations += 1
         self.discharged += 1
         self.instances.append("%s|%s" % (rule, key))
@@ -454,16 +460,18 @@ class Check:
 
     def bad(self, rule, key, msg, where=""):
         """an obligation that fails; suppressed only by an exact known-finding key"""
-        full = "%s|%s" % (rule, key)
-        if any(v["rule"] == rule and v["key"] == key for v in self.violations):
+        full = "%s|%s" % (rule, key)          # known findings are keyed without the pass prefix: the same construct in every configuration
+        shown = self.prefix + str(key)
+        if any(v["rule"] == rule and v["key"] == shown for v in self.violations):
             return
         self.obligations += 1
-        self.instances.append("%s|%s" % (rule, key))
+        self.instances.append("%s|%s" % (rule, shown))
         if full in self.known:
-            self.known_hits.append((full, self.known[full]))
+            if not any(k == full for k, _ in self.known_hits):
+                self.known_hits.append((full, self.known[full]))
             self.discharged += 0
             return
-        self.violations.append({"rule": rule, "key": key, "msg": msg, "where": where})
+        self.violations.append({"rule": rule, "key": shown, "msg": msg, "where": where})
 
     def floor(self, rule, what, got, floor):
         """instance floor: a rule that matches fewer sites than were confirmed by hand fails closed"""
@@ -475,6 +483,19 @@ class Check:
             self.ok(rule, "floor:%s>=%d" % (what, floor))
 
     def finish(self, explanation, trusted_base, assumptions, exhaustive=True, technique=""):
+        if self.defer:
+            self._finish_args = (explanation, trusted_base, assumptions, exhaustive, technique)
+            return 1 if self.violations else 0
+        return self.finalize(explanation, trusted_base, assumptions, exhaustive, technique)
+
+    def finalize(self, explanation=None, trusted_base=None, assumptions=None, exhaustive=True, technique=""):
+        if explanation is None and self._finish_args:
+            explanation, trusted_base, assumptions, exhaustive, technique = self._finish_args
+        explanation = explanation or ""
+        trusted_base = trusted_base or []
+        assumptions = assumptions or []
+        if self.passes:
+            self.analysed = dict(self.analysed, passes=self.passes)
         wall = time.time() - self.t0
         os.makedirs(os.path.join(VERIF, "evidence"), exist_ok=True)
         os.makedirs(os.path.join(VERIF, "replay"), exist_ok=True)
@@ -525,6 +546,8 @@ class Check:
         return 0
 
 
-def get_facts(config="default"):
+def get_facts(config=None):
+    """facts of /repo's current tree in the given cargo configuration (default: $VERIF_CONFIG or 'default')"""
+    config = config or os.environ.get("VERIF_CONFIG") or "default"
     d = build_facts.build(config)
     return Facts(d)
